@@ -166,6 +166,36 @@ func (o *verifC17RbfObserver) FinalBalances() fn.Option[ShutdownBalances] {
 
 var _ ChanStateObserver = (*verifC17RbfObserver)(nil)
 
+// verifC17RbfSigner is the CloseSigner handed to the machine: the real channel,
+// with the transactions it builds recorded (the statement speaks about "the
+// closing transaction the two sides build").
+type verifC17RbfSigner struct {
+	ch        *lnwallet.LightningChannel
+	proposals int
+	lastTx    *wire.MsgTx // tx of the latest successful CreateCloseProposal
+	lastFee   int64
+}
+
+func (s *verifC17RbfSigner) CreateCloseProposal(fee btcutil.Amount, local, remote []byte,
+	opts ...lnwallet.ChanCloseOpt) (input.Signature, *wire.MsgTx, btcutil.Amount, error) {
+
+	sig, tx, bal, err := s.ch.CreateCloseProposal(fee, local, remote, opts...)
+	if err == nil {
+		s.proposals++
+		s.lastTx, s.lastFee = tx.Copy(), int64(fee)
+	}
+	return sig, tx, bal, err
+}
+
+func (s *verifC17RbfSigner) CompleteCooperativeClose(localSig, remoteSig input.Signature,
+	local, remote []byte, fee btcutil.Amount, opts ...lnwallet.ChanCloseOpt) (*wire.MsgTx,
+	btcutil.Amount, error) {
+
+	return s.ch.CompleteCooperativeClose(localSig, remoteSig, local, remote, fee, opts...)
+}
+
+var _ CloseSigner = (*verifC17RbfSigner)(nil)
+
 func verifC17RbfScript(r *lnwallet.VerifRng) []byte {
 	switch r.Intn(3) {
 	case 0:
@@ -181,6 +211,7 @@ type verifC17RbfExch struct {
 	closer   int
 	iter     int
 	fee      int64 // fee_satoshis as decoded by the closee (as sent if never received)
+	propTx   *wire.MsgTx // the (unsigned) tx the closer built and signed
 	closeeTx *wire.MsgTx
 	closerTx *wire.MsgTx
 	judged   bool
@@ -192,6 +223,7 @@ type verifC17RbfParty struct {
 	env      *Environment
 	mapper   *RbfMsgMapper
 	obs      *verifC17RbfObserver
+	signer   *verifC17RbfSigner
 	state    RbfState
 	dead     error
 	wireIn   [][]byte
@@ -309,7 +341,6 @@ func (x *verifC17RbfRun) judgeTx(ex *verifC17RbfExch, tx *wire.MsgTx, holder str
 	// not in the statement: the RBF flow signals replaceability.
 	x.vc.Count("diag_sequence_evals", 1)
 	if tx.TxIn[0].Sequence > 0xfffffffd {
-		x.vc.Count("diag_sequence_not_rbf", 1)
 		x.vc.Diag("rbf_sequence_not_signalling", fmt.Sprintf("sequence %x: %s", tx.TxIn[0].Sequence, ctx))
 	}
 	x.txs++
@@ -344,8 +375,12 @@ func (x *verifC17RbfRun) daemon(k int, ev ProtocolEvent, d protofsm.DaemonEvent)
 				x.logf("%d -> shutdown script %x", k, mm.Address)
 			case *lnwire.ClosingComplete:
 				x.iters[k]++
-				x.cur[k] = &verifC17RbfExch{closer: k, iter: x.iters[k], fee: int64(mm.FeeSatoshis)}
+				x.cur[k] = &verifC17RbfExch{closer: k, iter: x.iters[k], fee: int64(mm.FeeSatoshis),
+					propTx: p.signer.lastTx}
 				x.vc.Count("closing_complete_sent", 1)
+				if int64(mm.FeeSatoshis) > x.owned[k] {
+					x.vc.Count("unaffordable_offer_sent", 1)
+				}
 				x.logf("%d -> closing_complete fee %d locktime %d", k, mm.FeeSatoshis, mm.LockTime)
 			case *lnwire.ClosingSig:
 				x.vc.Count("closing_sig_sent", 1)
@@ -367,6 +402,16 @@ func (x *verifC17RbfRun) daemon(k int, ev ProtocolEvent, d protofsm.DaemonEvent)
 			}
 			ex.fee = int64(t.SigMsg.FeeSatoshis)
 			ex.closeeTx = de.Tx
+			// the (unsigned) transactions the two sides built.
+			x.vc.Count("oracle_built_identical", 1)
+			if ex.propTx == nil || p.signer.lastTx == nil ||
+				ex.propTx.TxHash() != p.signer.lastTx.TxHash() {
+
+				x.viol("coop_identical_tx", "rbf:built-tx-differs",
+					fmt.Sprintf("closer %d and closee %d built different transactions for fee %d (type %s): %v vs %v",
+						1-k, k, ex.fee, x.p.TypeName, ex.propTx, p.signer.lastTx))
+				return false
+			}
 			x.logf("%d broadcasts as closee: %x", k, verifC17RbfTxBytes(de.Tx))
 			x.judgeTx(ex, de.Tx, "closee")
 			ex.judged = true
@@ -413,12 +458,13 @@ func (x *verifC17RbfRun) apply(k int, first ProtocolEvent) {
 				x.vc.Count("early_offers", 1)
 			}
 		}
+		built := p.signer.proposals
 		tr, err := p.state.ProcessEvent(ev, p.env)
 		if err != nil {
 			// protofsm reports the error and tears the machine down.
 			p.dead = err
 			x.logf("%d %s <- %T: ERROR %v", k, from, ev, err)
-			x.onError(k, ev, err)
+			x.onError(k, ev, err, p.signer.proposals > built)
 			return
 		}
 		cont := true
@@ -485,13 +531,24 @@ func (x *verifC17RbfRun) after(k int, ev ProtocolEvent) {
 		if x.done[k] > 1 {
 			x.vc.Count("rbf_replacements", 1)
 			if ex.fee < x.lastFee[k] {
-				x.vc.Count("diag_rbf_fee_decreased", 1)
 				x.vc.Diag("rbf_fee_decreased", fmt.Sprintf("%s after fee %d", ctx, x.lastFee[k]))
 			}
 		}
 		x.lastFee[k] = ex.fee
 		w := x.owned
 		w[k] -= ex.fee
+		if w[k] < x.dust[k] {
+			x.vc.Count("closer_output_dust", 1)
+		}
+		if w[1-k] < x.dust[1-k] {
+			x.vc.Count("closee_output_dust", 1)
+		}
+		if ex.fee == 0 {
+			x.vc.Count("zero_fee_closes", 1)
+		}
+		if k == x.oi {
+			x.vc.Count("closer_is_opener", 1)
+		}
 		x.vc.Sig(fmt.Sprint(x.p.TypeName, k == x.oi, ex.iter, w[k] < x.dust[k], w[1-k] < x.dust[1-k],
 			x.early, p.obs.link))
 
@@ -499,12 +556,25 @@ func (x *verifC17RbfRun) after(k int, ev ProtocolEvent) {
 		if ce, ok := p.localPeerState().(*CloseErr); ok {
 			x.vc.Count("close_err_states", 1)
 			x.logf("%d CloseErr: %v", k, ce.ErrState)
+			if cp, ok := ce.ErrState.(*ErrStateCantPayForFee); ok {
+				if int64(cp.attemptedFee) > x.owned[k] {
+					// the documented error state, no transaction.
+					x.vc.Count("unaffordable_refused", 1)
+				} else {
+					// stricter than the statement (the gate ignores
+					// the commit fee / anchors credited to the
+					// opener): no transaction, not judged.
+					x.vc.Diag("rbf_affordable_fee_refused", fmt.Sprintf(
+						"closer %d (opener %d) refuses fee %d although it owns %d (raw balance %d)",
+						k, x.oi, cp.attemptedFee, x.owned[k], x.raw[k]))
+				}
+			}
 		}
 	}
 }
 
 // onError classifies a ProcessEvent error of party k.
-func (x *verifC17RbfRun) onError(k int, ev ProtocolEvent, err error) {
+func (x *verifC17RbfRun) onError(k int, ev ProtocolEvent, err error, built bool) {
 	x.vc.Count("machine_errors", 1)
 	switch t := ev.(type) {
 	case *LocalSigReceived:
@@ -519,6 +589,21 @@ func (x *verifC17RbfRun) onError(k int, ev ProtocolEvent, err error) {
 		}
 	case *OfferReceivedEvent:
 		x.vc.Count("offers_refused", 1)
+		if ex := x.cur[1-k]; built && ex != nil && ex.propTx != nil {
+			// the closee passed its own checks, built its version
+			// of the transaction and then could not complete it
+			// with the honest closer's signature: the two sides did
+			// not build the same transaction, or a signature does
+			// not verify.
+			x.vc.Count("oracle_identical_tx", 1)
+			mine := x.parties[k].signer.lastTx
+			x.viol("coop_identical_tx", fmt.Sprintf("rbf:closee-rejects-closing_complete,sameTxid=%v",
+				mine.TxHash() == ex.propTx.TxHash()),
+				fmt.Sprintf("closee %d cannot complete the honest closer's offer (fee %d, type %s, opener %d, owned %v raw %v dust %v): %v; closer built %x, closee built %x",
+					k, t.SigMsg.FeeSatoshis, x.p.TypeName, x.oi, x.owned, x.raw, x.dust, err,
+					verifC17RbfTxBytes(ex.propTx), verifC17RbfTxBytes(mine)))
+			return
+		}
 		x.vc.Diag("rbf_offer_refused", fmt.Sprintf("closee %d refuses closing_complete fee %d (type %s opener %d owned %v raw %v dust %v): %v",
 			k, t.SigMsg.FeeSatoshis, x.p.TypeName, x.oi, x.owned, x.raw, x.dust, err))
 	case *SendOfferEvent:
@@ -614,6 +699,14 @@ func verifC17RbfCase(vc *lnwallet.VerifCtx, i int) {
 	r := vc.Rng(i)
 	p := lnwallet.VerifE1GenParams(r)
 	nActions := 8 + r.Intn(28)
+	if r.Chance(1, 3) {
+		// states in which the non-opener owns nothing or very little
+		// (its output is dust / it cannot pay any fee).
+		p.PushPct = 0
+		if r.Bool() {
+			nActions = 2 + r.Intn(8)
+		}
+	}
 	vc.Case(i, map[string]any{"params": p, "actions": nActions})
 	e, err := lnwallet.VerifE1New(vc, r, p)
 	if err != nil {
@@ -688,6 +781,7 @@ func verifC17RbfCase(vc *lnwallet.VerifCtx, i int) {
 	for k := 0; k < 2; k++ {
 		k := k
 		obs := &verifC17RbfObserver{ch: chans[k], link: r.Chance(3, 4)}
+		signer := &verifC17RbfSigner{ch: chans[k]}
 		env := &Environment{
 			ChainParams:    chaincfg.RegressionNetParams,
 			ChanPeer:       *st[k].IdentityPub,
@@ -701,7 +795,7 @@ func verifC17RbfCase(vc *lnwallet.VerifCtx, i int) {
 				return x.scripts[k], nil
 			},
 			FeeEstimator: verifC17RbfEst{},
-			CloseSigner:  chans[k],
+			CloseSigner:  signer,
 			ChanObserver: obs,
 		}
 		if prodEst {
@@ -719,7 +813,7 @@ func verifC17RbfCase(vc *lnwallet.VerifCtx, i int) {
 			env.RemoteMusigSession = &verifC17RbfMusig{channel: chans[k], rnd: nonceRng}
 		}
 		x.parties[k] = &verifC17RbfParty{
-			idx: k, ch: chans[k], env: env, obs: obs, state: &ChannelActive{},
+			idx: k, ch: chans[k], env: env, obs: obs, signer: signer, state: &ChannelActive{},
 			mapper: NewRbfMsgMapper(func() uint32 { return height }, chanID, *st[k].IdentityPub),
 		}
 	}
